@@ -460,6 +460,33 @@ def check_null(job):
             "case": {"null": list(job)}}
 
 
+def check_rtc_layers(job):
+    """relative_to_config set by BOTH file sources with different values: the -s file's value decides (here: where a relative
+    output directory given in the -s file, whose directory is not the working directory, ends up)"""
+    s_val, u_val = job
+    box = fsbox.Box("c16r")
+    msgs = []
+    try:
+        box.build({"in/a.cmake": "set(A 1)\n"})
+        os.makedirs(box.path("sdir"), exist_ok=True)
+        with open(box.path("sdir", "s.yaml"), "w") as f:
+            f.write(yaml_dump({"output": {"relative_to_config": s_val, "directory": "rst_out"}}))
+        r = box.run(["-s", box.path("sdir", "s.yaml"), box.path("work", "in")], cwd="work",
+                    user_config=yaml_dump({"output": {"relative_to_config": u_val}}))
+        want = box.path("sdir", "rst_out") if s_val else box.path("work", "rst_out")
+        if r["status"] != 0:
+            msgs.append(f"error: run failed: {r['exc'] or r['stdout'][-200:]}")
+        elif not os.path.exists(os.path.join(want, "a.rst")):
+            found = [k for k in box.snapshot() if k.endswith("a.rst")]
+            msgs.append(f"output-location: relative_to_config is {s_val} in the -s file and {u_val} in the user configuration: the page is "
+                        f"expected in {want}, found {found}")
+    finally:
+        box.cleanup()
+    msgs = [m.replace(box.root, "<box>") for m in msgs]
+    return {"viol": msgs, "obs": common.digest([job, not msgs]), "n": 1, "nt": common.digest(job), "cls": msgs[0].split(":")[0] if msgs else None,
+            "case": {"rtc_layers": list(job)}}
+
+
 def check_wrong_excludes(job):
     """a wrongly typed exclude_filters value in one file source while another source gives a valid list: the union cannot
     be formed, the run must be refused (never: the bad layer silently dropped)"""
@@ -535,6 +562,7 @@ def run(ctx):
     ctx.sweep(check_prefix_text, [(p_, src) for p_ in PREFIXES for src in ("cli", "sfile", "user")], space="prefix texts through the complete run", selftest=1)
     nj = [(sec, opt, typ, src) for sec, opt, typ in OPTIONS + [("output", "directory", "str")] for src in ("sfile", "user")]
     ctx.sweep(check_null, nj, space="explicit null per option and file source", selftest=1)
+    ctx.sweep(check_rtc_layers, [(a, b) for a in (True, False) for b in (True, False)], space="relative_to_config set by both file sources", selftest=1)
     xjobs = [(bs, bad, gs) for bs in ("sfile", "user") for bad in (7, True, {"k": "v"}, 1.5, [1.10], ["ok", True], [None], [["nested"]])
              for gs in ("cli", "sfile", "user", "none") if gs != bs]
     ctx.sweep(check_wrong_excludes, xjobs, space="wrongly typed exclude_filters below/above a valid list", selftest=1)
@@ -553,6 +581,8 @@ def run(ctx):
 
 
 def replay(case):
+    if isinstance(case, dict) and "rtc_layers" in case:
+        return check_rtc_layers(tuple(case["rtc_layers"]))["viol"]
     if isinstance(case, dict) and "prefix_text" in case:
         return check_prefix_text(tuple(case["prefix_text"]))["viol"]
     if isinstance(case, dict) and "null" in case:
